@@ -228,9 +228,42 @@ func (t *c19Task) run(op c19Op, sh *c19Shared) (res string) {
 		// merges at several depths, with key names that other documents also use: every merged key must arrive
 		doc := "tmpl: &t\n  command: from-template\n  label: L\n  env: &e\n    GOOD: \"1\"\n    A: b\nsteps:\n  - <<: *t\n  - group: g\n    steps:\n      - <<: *t\n        env:\n          <<: *e\n          MORE: x\n      - group: inner\n        steps:\n          - <<: *t\n            key: deep\n"
 		if op.arg%2 == 1 {
-			// right after documents that fail half-way through mappings holding the same key names
-			for _, bad := range []string{"steps:\n  - command: a\n    label: b\n    key: k\n    env: {GOOD: 1}\n    ~: x\n", "steps:\n  - group: g\n    steps:\n      - command: a\n        env:\n          GOOD: 1\n          A: 2\n          MORE: 3\n          ~: x\n", "tmpl:\n  command: c\n  label: l\n  env: e\n  ? [1]\n  : x\n"} {
-				pipeline.Parse(strings.NewReader(bad))
+			// a family of pairs: a document that fails in a mapping nested bd levels below a step (after mappings
+			// holding the usual key names), then a document whose merging step sits md groups deep; the merged
+			// step must be complete whatever was parsed - and failed - before
+			for bd := 0; bd < 5; bd++ {
+				for md := 0; md < 5; md++ {
+					var bad strings.Builder
+					bad.WriteString("steps:\n  - command: a\n    label: b\n    key: k\n    timeout: 1\n")
+					ind := "    "
+					for d := 0; d < bd; d++ {
+						bad.WriteString(ind + fmt.Sprintf("n%d:\n", d))
+						ind += "  "
+						bad.WriteString(ind + "command: x\n" + ind + "label: y\n")
+					}
+					bad.WriteString(ind + "~: boom\n")
+					pipeline.Parse(strings.NewReader(bad.String()))
+					var good strings.Builder
+					good.WriteString("tmpl: &t\n  command: from-template\n  label: L\nsteps:\n")
+					ind = "  "
+					for d := 0; d < md; d++ {
+						good.WriteString(ind + fmt.Sprintf("- group: g%d\n", d) + ind + "  steps:\n")
+						ind += "    "
+					}
+					good.WriteString(ind + "- <<: *t\n" + ind + "  key: deep\n")
+					gp, _ := pipeline.Parse(strings.NewReader(good.String()))
+					complete := 0
+					if gp != nil {
+						walkCommandSteps(gp.Steps, func(cs *pipeline.CommandStep, d int) {
+							if cs.Command == "from-template" && cs.Label == "L" && cs.Key == "deep" {
+								complete++
+							}
+						}, 0)
+					}
+					if complete != 1 {
+						return fmt.Sprintf("SHARED-STATE: after a document that failed %d mappings below a step, a document whose step (%d groups deep) merges a template parsed without the merged keys:\n%s", bd, md, good.String())
+					}
+				}
 			}
 		}
 		pl, err := pipeline.Parse(strings.NewReader(doc))
